@@ -1,10 +1,13 @@
 #!/bin/sh
-# usage: tools/try_mutant.sh <patch.diff> <Cxx> [tier]   -- applies to /repo, runs the check, restores /repo
+# usage: tools/try_mutant.sh <patch.diff> <Cxx> [tier]   -- applies to /repo, runs the check, restores /repo and the evidence file
 P=$(readlink -f "$1"); shift
 PID=$1; TIER=${2:-quick}
 [ -z "$(git -C /repo status --porcelain --untracked-files=no)" ] || { echo "/repo not clean"; exit 3; }
+cd /verif
+cp evidence/$PID.json /tmp/evidence_$PID.bak 2>/dev/null
 git -C /repo apply "$P" || exit 3
-cd /verif; ./check $PID --tier $TIER > /tmp/try_$PID.log 2>&1; rc=$?
+./check $PID --tier $TIER > /tmp/try_$PID.log 2>&1; rc=$?
 git -C /repo checkout -- .
-grep -E "VIOLATION|KNOWN-FINDING|NOTE" /tmp/try_$PID.log | head -5
+cp /tmp/evidence_$PID.bak evidence/$PID.json 2>/dev/null
+grep -E "VIOLATION|KNOWN-FINDING|NOTE" /tmp/try_$PID.log | head -4
 echo "exit=$rc"
